@@ -206,7 +206,9 @@ func (c *conn) send(msg *kmip.ResponseMessage) error {
 	}
 	tx := c.tx.Load().(chan txMsg)
 	verifYield("srv.send.loaded")
-	errCh := make(chan error)
+	// Buffered: writeloop must be able to hand over a write error (and exit) even when this
+	// function has already returned through the cancelled context.
+	errCh := make(chan error, 1)
 	select {
 	case tx <- txMsg{msg: msg, err: errCh}:
 		select {
